@@ -42,6 +42,18 @@ func cmdTry(args []string) int {
 		sets = append(sets, genRandomStreams(r, "random-streams", 3000, fullKnobs(), ""))
 	case "malformed":
 		sets = append(sets, genMalformed(r, 5000))
+	case "ts":
+		sets = append(sets, genTimestamps(r, 2000))
+	case "comp":
+		sets = append(sets, genComponents(r, 2000))
+	case "chunk":
+		sets = append(sets, genChunked(r, 20, 20000, 12))
+	case "chains":
+		sets = append(sets, genChains(r, 1500, 20000))
+	case "cuts":
+		sets = append(sets, genCutsFaults(r, 10, 400, 1))
+	case "route":
+		sets = append(sets, genRouting(r, 300))
 	}
 	st := correspond(sets)
 	fmt.Printf("evaluations=%d distinct=%d mismatches=%d hangs=%d outcomes=%v\n", st.Evaluations, st.Distinct, st.NMismatch, st.Hangs, st.Outcomes)
